@@ -107,6 +107,8 @@ def gen_spec(r, tier, fam):
     spec = gl.rand_spec(r, family=fam, max_dims=3, limits_prob=0.0)
     spec["outs"] = r.choice([1, 1, 2, 3])
     spec["ll"] = []
+    if "tensor" in spec.get("type", ""):
+        spec["aw"] = []          # anisotropic full tensors explode (3^(depth*weight) points per direction)
     d = spec["dims"]
     if fam == "localp":
         spec["rule"] = r.choice(gl.LOCAL_RULES)
@@ -312,6 +314,7 @@ def pass1_lines(cid, spec, trans):
     return ls
 
 
+MAXPTS = 2500
 STENCIL = (1, 2, 3)
 NSTEP = 8
 
@@ -727,6 +730,24 @@ def run(res, tier, seed, only=None):
             continue
         cases[cid] = {"spec": spec, "trans": trans}
         p1 += pass1_lines(cid, spec, trans)
+    # size guard: grids with more than MAXPTS points are skipped (counted), before anything large is printed
+    p0 = []
+    for cid, c in cases.items():
+        p0 += ["case " + cid, gl.make_cmd(c["spec"]), "dump g meta"]
+    rc, obs0, so, se = gl.run_scripts(drv, p0, wd, "pass0", timeout=1500, case_timeout=30)
+    too_large = 0
+    keep = set()
+    for cid in cases:
+        st0 = obs0.get(cid, [])
+        m0 = st0[1].obs.get("meta") if len(st0) > 1 else None
+        if m0 is not None and int(m0["points"]) > MAXPTS:
+            too_large += 1
+        else:
+            keep.add(cid)
+    cases = {cid: c for cid, c in cases.items() if cid in keep}
+    p1 = []
+    for cid, c in cases.items():
+        p1 += pass1_lines(cid, c["spec"], c["trans"])
     rc, obs1, so, se = gl.run_scripts(drv, p1, wd, "pass1", timeout=1500, case_timeout=30)
     if rc != 0:
         res.violation("tsgdrv-crash", "tsgdrv exited with %d: %s" % (rc, se[-400:]), {"kind": "impl-counterexample", "script": p1[-20:]})
@@ -788,7 +809,7 @@ def run(res, tier, seed, only=None):
         "samples": [scripts[c][:6] for c in list(scripts)[:2]],
         "programs": len(metas), "traces_validated_against_impl": agree, "disagreements_checked": len(mism),
         "correspondence": {"rule_local_point_records_agreeing": agree, "mismatches": len(mism)},
-        "input_distribution": dist,
+        "input_distribution": dist, "skipped_grid_too_large": too_large,
         "exactness": {"cases_reproduced": stats["exact_cases"], "comparisons": stats["exact_evals"], "by_family": stats["exact_by_family"],
                       "not_reproduced_skipped": stats["exact_not_reproduced"], "tolerance": TOL_EXACT},
         "finite_differences": {"cases": stats["fd_cases"], "comparisons": stats["fd_evals"], "by_family": stats["fd_by_family"],
